@@ -4,6 +4,8 @@
 """
 from __future__ import annotations
 
+import zlib
+
 from common import np, f2h, tok_b, tok_f, tok_i
 
 import frouros.detectors.concept_drift as cd
@@ -126,7 +128,7 @@ def obs(cls: str, d) -> list[str]:
         return out
     if cls == "ADWIN":
         return head + ["-", tok_i(d.width), tok_f(d.total), tok_f(d.variance),
-                       "rows=" + ",".join(str(b.idx) for b in d.buckets)]
+                       "rows=" + ",".join(str(b.idx) for b in d.buckets), tok_i(d.num_buckets), tok_i(d.num_max_buckets)]
     if cls == "KSWIN":
         return head + ["-", tok_i(len(d.window))]
     if cls == "STEPD":
@@ -144,6 +146,18 @@ def flags(cls: str, d) -> tuple[bool, bool]:
     return bool(d.drift), bool(getattr(d, "warning", False))
 
 
+TYPED_INPUTS = True
+
+
+def typed(value, cast):
+    """the same number as a NumPy scalar: integers (0/1 error indicators) as np.int64, anything else as np.float64"""
+    if cast is None or isinstance(value, bool):
+        return value
+    if cast == "int64" and float(value) == int(value) and abs(value) < 2**53:
+        return np.int64(int(value))
+    return np.float64(value)
+
+
 class Runner:
     """Runs one real detector, recording the model's operation lines and the implementation's
     observation after every operation."""
@@ -154,6 +168,10 @@ class Runner:
         self.obs: list[list[str]] = []
         self.err = None
         self.det = None
+        # value TYPE: most runs feed Python numbers, a deterministic ~1 in 6 feeds the NumPy scalars detectors see in practice
+        # (elements of `(y_pred != y_true).astype(int)` or of a float64 array); the model line is the same number either way
+        h = zlib.crc32(repr((cls, sorted((k, repr(v)) for k, v in params.items()))).encode()) % 12
+        self.cast = {0: "int64", 1: "float64"}.get(h) if TYPED_INPUTS else None
         if cls == "KSWIN":
             self._rng_state = np.random.get_state()
         try:
@@ -175,7 +193,7 @@ class Runner:
             full = len(d.window) + 1 >= d.config.min_num_instances
             st = np.random.get_state() if full else None
         try:
-            logs = d.update(value=value, **kw)
+            logs = d.update(value=typed(value, self.cast), **kw)
         except Exception as e:  # noqa: BLE001
             self.err = e
             self.lines.append(f"u {self.inst} {f2h(value)}")
